@@ -279,6 +279,7 @@ theorem pendPush_all {view : StoreView F} : ∀ (as : List Nat) (xs : List (Val 
 
 /-! ### one round of `data_equal` -/
 
+set_option maxHeartbeats 2000000 in
 theorem rangeEnd_spec {view : StoreView F} {a1 a2 : Nat} {v1 v2 : Val F}
     (h1 : Decodes view a1 v1) (h2 : Decodes view a2 v2) :
     rangeEndEqual fo view a1 a2 = .ok (rangeEndEq fo (norm v1) (norm v2)) := by
@@ -330,6 +331,7 @@ macro "eq_decided" : tactic => `(tactic| first
      simp [dataEqual, compareNat, valEq, norm, nvalEq, cmpIter_nat, cmpIter_sym, Ty_toNat_inj, *]
      done))
 
+set_option maxHeartbeats 8000000 in
 theorem dataEqual_step {view : StoreView F} {l r : Nat} {vl vr : Val F} (regs : List Nat)
     (hl : Decodes view l vl) (hr : Decodes view r vr) (nl : NoSlice vl) (nr : NoSlice vr) :
     StepSpec fo view regs l r vl vr := by
@@ -397,7 +399,8 @@ theorem dataEqual_step {view : StoreView F} {l r : Nat} {vl vr : Val F} (regs : 
     cases hr with
     | chars ht' hcs =>
       apply step_decided
-      simp [dataEqual, ht, ht', cmpListPrim _ _ _ _ _ _ hcs hc, valEq, norm, nvalEq, list_beq_comm]
+      simp [dataEqual, ht, ht', cmpListPrim _ _ _ _ _ _ hcs hc, valEq, norm, nvalEq]
+      first | done | exact BEq.comm | exact eq_comm | (constructor <;> intro h <;> exact h.symm)
     | _ => eq_decided
   | chars ht hcs =>
     cases hr with
@@ -409,7 +412,8 @@ theorem dataEqual_step {view : StoreView F} {l r : Nat} {vl vr : Val F} (regs : 
     cases hr with
     | bytes ht' hcs =>
       apply step_decided
-      simp [dataEqual, ht, ht', cmpListPrim _ _ _ _ _ _ hcs hc, valEq, norm, nvalEq, list_beq_comm]
+      simp [dataEqual, ht, ht', cmpListPrim _ _ _ _ _ _ hcs hc, valEq, norm, nvalEq]
+      first | done | exact BEq.comm | exact eq_comm | (constructor <;> intro h <;> exact h.symm)
     | _ => eq_decided
   | bytes ht hcs =>
     cases hr with
@@ -426,8 +430,9 @@ theorem popTo_append (xs rest : List Nat) : popTo rest.length (xs ++ rest) = res
   induction xs with
   | nil => cases rest <;> simp [popTo]
   | cons x xs ih =>
-    have : rest.length < (xs ++ rest).length + 1 := by simp; omega
-    simp [popTo, ih, this]
+    have : (x :: (xs ++ rest)).length > rest.length := by simp; omega
+    show popTo rest.length (x :: (xs ++ rest)) = rest
+    rw [popTo, if_pos this, ih]
 
 /-- invariant of `perform_equality_check`: with pending comparisons `ps` above `rest`, the loop returns
 the conjunction of their value-level equalities and leaves exactly `rest` -/
